@@ -26,6 +26,14 @@ func init() {
 			x := fr.x
 			tag := x.tagOf(a[0])
 			n := x.concreteInt(a[1])
+			if x.looseOn {
+				k := 0
+				if n > 0 {
+					k = int(x.looseNext() % uint64(n))
+				}
+				x.nondets = append(x.nondets, NondetRec{Tag: tag, Kind: "choice", Val: uint64(k)})
+				return x.tc.Const(64, uint64(k))
+			}
 			k := x.choose(n, tag)
 			x.nondets = append(x.nondets, NondetRec{Tag: tag, Kind: "choice", Val: uint64(k)})
 			return x.tc.Const(64, uint64(k))
@@ -172,6 +180,14 @@ func (x *Exec) tagOf(v Value) string {
 
 func (x *Exec) nondet(tagV Value, w int, kind string) Value {
 	tag := x.tagOf(tagV)
+	if x.looseOn {
+		val := x.looseNext()
+		x.nondets = append(x.nondets, NondetRec{Tag: tag, Kind: kind, Val: val})
+		if w == 0 {
+			return x.tc.Bool(val&1 != 0)
+		}
+		return x.tc.Const(w, val)
+	}
 	if x.eng.fixed != nil {
 		// concrete re-execution of a counterexample
 		i := len(x.nondets)
